@@ -78,6 +78,19 @@ def run(env):
     seeds = ["3(X)n", "3(x)", "1{X}n", "5λX;†", "3ɾ,", "3(n2=[X])n", "3(n2=[x]n,)", "5λ2<[X]7;†", "1 2 3W(n,)", "(⟨X⟩)", "5λ⟨X⟩;†",
              "3(n[X|x])", "v+X", "λ(X);†", "@f:1|X;5@f;", "3(λX;†)", "₌+X", "3ɾ:,,", "3ƛ›;,", "5λ3(n2=[X]);†", "3(3(X)n,)", "2(3ɾ,)",
              "@f:1|3(X)n;5@f;n", "3(n,)n", "5 'X;", "3µX;", "⟨1|2|X⟩n", "[X|x]n", "3(λ2|X;)n"]
+    # lambdas of every written arity (0 included: called with no argument at all) x an early exit at lambda level or
+    # below an if / a loop x every way of calling them (dagger, inside a list literal on an empty / non-empty stack,
+    # as a modifier operand) ...
+    for ar in ("", "0|", "1|", "2|", "3|"):
+        for body in ("1X", "X", "1 2X3", "n[X]", "1[X|2]", "3(X)", "x", "1x"):
+            if body.endswith("x") and ar in ("", "1|", "2|", "3|"):
+                continue                                  # unguarded recursion does not terminate
+            lam = f"λ{ar}{body};"
+            seeds += [f"{lam}†", f"4 5 6{lam}†n", f"⟨{lam}|2⟩,", f"7⟨{lam}|2⟩,n", f"3 4 v{lam}", f"⟨1|2⟩ƒ{lam}"]
+    # ... and the same lazy list observed or printed more than once (a list that was walked to its end, then printed)
+    for mk in ("3ƛ;", "3ɾ", "3ƛƛ1;;", "⟨1|2⟩›", "3ɾ'2%;"):
+        seeds += [f"{mk}…,", f"{mk}:,,", f"{mk}→a ←a L_ ←a ,", f"{mk}£¥L_¥,¥,", f"{mk}:t_,", f"2({mk},)", f"{mk}…L_…,n"]
+    seeds = list(dict.fromkeys(seeds))
     exhaustive = list(parsecorr.exhaustive(env.budget(3, 4)))
     transcorr.check(env, seeds + gen[: env.budget(400, 3000)])
     gw = progs.ProgGen(rng)
